@@ -46,6 +46,8 @@ def boot():
     settings.set_print_events(False)
     _booted = True
     preload()
+    from .core import apply_host_state
+    apply_host_state({})          # the plain host state is the known baseline every child starts from
 
 
 def preload():
